@@ -75,3 +75,20 @@ Definition c09_chk : checker := fun now d dir ob =>
 
 Definition C09_mon := mon c09_chk.
 Definition C09_ok := mon_ok c09_chk.
+
+(* 905 (D13): the lease of an acquire is the MATHEMATICAL "time of the acquire plus ttl".  The code adds in 64 bits: a
+   ttl so large that time + ttl leaves the range wraps to a lease end in the past, the next sweep removes the lock
+   and another execution acquires the resource although the holder's lease has not run out.  Evaluated on its own
+   (C09_mon states the lease as the code computes it, add64). *)
+Definition c09w_cmd (t : Z) (c : command) : bool :=
+  match c with AcquireLock _ _ _ ttl exp => exp =? t + ttl | _ => true end.
+Definition c09w_chk : checker := fun now d dir ob =>
+  match dir with
+  | DTick t _ _ _ =>
+    flat_map (fun o => match o with
+                       | OInst _ subs _ =>
+                         if forallb (fun s => match s with SStore cs => forallb (c09w_cmd t) cs | _ => true end) subs then [] else [905]
+                       | _ => [] end) ob
+  | _ => []
+  end.
+Definition C09w_mon := mon c09w_chk.
